@@ -1,4 +1,4 @@
-CONSTANT Cfg <- Cfg_seq0_cancel_heavy
+CONSTANT CfgSet <- S_seq0_cancel_heavy
 INIT MCInit
 NEXT Next
 CHECK_DEADLOCK FALSE
